@@ -10,7 +10,7 @@ PID = 'C08'
 
 META = dict(
     explanation="dag_to_cpdag (order_edges, label_edges, sort) is executed on every DAG pattern with symbolic real weights and "
-                "as 0/1 int / float matrices, and pdag_to_cpdag (pdag_to_dag + dag_to_cpdag) on every binary PDAG with acyclic "
+                "as 0/1 int / float / bool matrices, and pdag_to_cpdag (pdag_to_dag + dag_to_cpdag) on every binary PDAG with acyclic "
                 "directed part. The result is compared entry-wise with the essential graph computed from the definition: the "
                 "union of all acyclic orientations of the skeleton with the same v-structures (edge directed iff all members "
                 "agree). Because the oracle depends on the class only, equality for every member also shows that the CPDAG is "
@@ -47,7 +47,7 @@ def h_dag(ctx):
     log = CallLog('sempler.utils')
     cl = []
     _cmp_matrix(cl, 'dag_to_cpdag(weighted)', log.call(u, 'dag_to_cpdag', M), want, p)
-    for dt in ('int', 'float'):
+    for dt in ('int', 'float', 'bool'):
         _cmp_matrix(cl, 'dag_to_cpdag(0/1 %s)' % dt, log.call(u, 'dag_to_cpdag', I.arr(pat, dt)), want, p)
     return PathResult('checked', cl, inputs=dict(calls=log.inputs(), A=rows), call='dag',
                       info=dict(pattern=[list(r) for r in pat], class_size=len(cls)),
@@ -116,7 +116,7 @@ def replay(rec):
             p = len(A)
             pat = tuple(tuple(1 if A[i][j] != 0 else 0 for j in range(p)) for i in range(p))
             want = K.union_graph(K.mec(pat), p)
-            for arg in (A, numpy.array(pat, dtype=int), numpy.array(pat, dtype=float)):
+            for arg in (A, numpy.array(pat, dtype=int), numpy.array(pat, dtype=float), numpy.array(pat, dtype=bool)):
                 got = u.dag_to_cpdag(arg.copy())
                 if got.shape != (p, p) or any(got[i][j] != want[i][j] for i in range(p) for j in range(p)):
                     bad.append('dag_to_cpdag(%s) = %s, essential graph is %s' % (arg.tolist(), got.tolist(), [list(r) for r in want]))
